@@ -187,6 +187,14 @@ pub fn range_vec(n: usize) -> (v: Vec<usize>)
 {
     (0..n).collect()
 }
+// (0..n).filter(PRED).collect()   (rule R-rangevec, over-approximation): SOME of the indices 0..n, in ascending order - the
+// predicate itself is not modelled, so nothing may be concluded about which indices were kept
+#[verifier::external_body]
+pub fn range_vec_subset(n: usize) -> (v: Vec<usize>)
+    ensures v@.len() <= n, forall|i: int| 0 <= i < v@.len() ==> (#[trigger] v@[i]) < n,
+{
+    unimplemented!()
+}
 // V.drain(..) consumed by a for loop   (rule R-drainall): all elements, in order; V is left empty
 #[verifier::external_body]
 pub fn vec_take_all<T>(v: &mut Vec<T>) -> (r: Vec<T>)
